@@ -7,4 +7,4 @@ require (
 	verifstat v0.0.0
 )
 
-replace verifstat => ../vstat
+replace verifstat => ./vstat
